@@ -56,6 +56,12 @@ pub fn inputs(_seed: u64, open: &[String]) -> impl Iterator<Item = Value> {
         json!({"query": "mutation { a c { x y } b }", "serial": ["a", "c", "b"]}),
         json!({"query": "mutation { a ... on Mutation { b } }", "serial": ["a", "b"]}),
         json!({"query": "mutation { a fail b }", "serial": ["a", "fail"]}),
+        // one top-level SELECTION is not one root FIELD
+        json!({"query": "mutation { ...F } fragment F on Mutation { a b }", "serial": ["a", "b"]}),
+        json!({"query": "mutation { ... on Mutation { b a } }", "serial": ["b", "a"]}),
+        json!({"query": "mutation { ... { a c { x y } b } }", "serial": ["a", "c", "b"]}),
+        json!({"query": "mutation M { ...F ...G } fragment F on Mutation { a } fragment G on Mutation { b }", "serial": ["a", "b"]}),
+        json!({"query": "mutation { b }", "serial": ["b"]}),
     ];
     if !open.iter().any(|x| x == "C04-merged-key-resolves-per-occurrence") {
         v.push(json!({"query": "mutation { a a }", "serial": ["a"]}));
